@@ -117,7 +117,20 @@ def split_dump(line):
     return info, " ".join(toks[i:])
 
 
+def over_of(s):
+    """for a 1.x version: another 1.x version whose p.db is left behind in the directory (m.db removed) before the
+    library is created (round 5, seeded C12-5: DROP TABLE + CREATE TABLE turned into CREATE TABLE IF NOT EXISTS in two
+    creators, which then adopted the old performance tables and version row)"""
+    one = [x for x in SCHEMAS if x.startswith("schema_1_")]
+    if s not in one:
+        return None
+    k = one.index(s)
+    return one[(k + 3) % len(one)] if len(one) > 3 else None
+
+
 def created_script(s, form):
+    if form == "over":
+        return ["create %s disk over %s" % (s, over_of(s)), "schema.dump", "db.q verify", "load", "schema.dump", "db.q verify"]
     if form == "mem":
         return ["create %s mem" % s, "schema.dump", "db.q verify"]
     return ["create %s disk" % s, "schema.dump", "db.q verify", "load", "schema.dump", "db.q verify"]
@@ -135,6 +148,10 @@ def collect(schemas, refs):
         for form in ("mem", "disk"):
             scripts.append(created_script(s, form))
             keys.append(("c", s, form))
+    for s in schemas:
+        if over_of(s):
+            scripts.append(created_script(s, "over"))
+            keys.append(("c", s, "over"))
     for rel in refs:
         scripts.append(ref_script(rel))
         keys.append(("r", rel))
@@ -200,6 +217,35 @@ def decide(schemas, refs, outs, all_pairs=True):
                                         "model": "expected the reloaded library's catalog dump"})
                 else:
                     dumps["c.%s.reloaded" % s] = (info2, d2)
+    hist["over_leftover_perfdata_ok"] = 0
+    for s in schemas:
+        o = outs.get(("c", s, "over"))
+        if o is None:
+            continue
+        if o and o[0].startswith("throw"):
+            # the creator refuses the directory (on the unchanged tree: every creator from 1.9.1 on, whose perfdata
+            # statements are plain CREATE TABLE - sqlite_error "table ... already exists"): no library was created,
+            # so the property claims nothing; only a creation that RETURNS must have produced a clean library
+            hist["over_leftover_refused"] = hist.get("over_leftover_refused", 0) + 1
+            continue
+        info, d = split_dump(o[1]) if len(o) > 1 else (None, None)
+        if info is None or o[0] != "ok":
+            divergences.append({"input": " ; ".join(created_script(s, "over")), "impl": " | ".join(x[:200] for x in o),
+                                "model": "expected a created library and its catalog dump"})
+            continue
+        dumps["c.%s.over" % s] = (info, d)
+        base = dumps.get("c.%s.disk" % s)
+        good = (len(o) >= 6 and o[2] == "ok" and o[3] == "ok " + s and o[5] == "ok"
+                and (base is None or (info["ver"], info["perf"]) == (base[0]["ver"], base[0]["perf"])))
+        if good:
+            hist["over_leftover_perfdata_ok"] += 1
+        else:
+            violations.append(viol("over", "a library created in a directory that still holds the p.db of a %s library "
+                                   "(m.db removed) is not a clean library of the requested version %s: verify '%s', "
+                                   "reload '%s' / '%s', stamped %r" % (over_of(s), s, o[2] if len(o) > 2 else "-",
+                                                                      o[3] if len(o) > 3 else "-", o[5] if len(o) > 5 else "-",
+                                                                      (info["ver"], info["perf"])),
+                                   {"schema": s, "kind": "over-leftover"}, created_script(s, "over") + o[:6]))
     for rel in refs:
         o = outs[("r", rel)]
         info, d = split_dump(o[0])
@@ -224,6 +270,8 @@ def decide(schemas, refs, outs, all_pairs=True):
             add("eq c.%s.mem c.%s.disk" % (s, s), "memdisk_eq", s)
         if "c.%s.disk" % s in dumps and "c.%s.reloaded" % s in dumps:
             add("same c.%s.disk c.%s.reloaded" % (s, s), "reloaded", s)
+        if "c.%s.disk" % s in dumps and "c.%s.over" % s in dumps:
+            add("same c.%s.disk c.%s.over" % (s, s), "over", s)
     npre = len(lines)
     for s in schemas:
         for form in ("mem", "disk"):
@@ -258,6 +306,12 @@ def decide(schemas, refs, outs, all_pairs=True):
                                        {"schema": s, "form": form, "kind": "version-stamp"},
                                        created_script(s, form)[:2] + ["stamped: %r perf: %r" % (info["ver"], info["perf"]),
                                                                       "lean: " + ans]))
+        elif kind == "over":
+            if ans != "ok true":
+                violations.append(viol("over", "the catalog of a library created over the left-over p.db of another version "
+                                       "differs from the catalog of the same version created in an empty directory",
+                                       {"schema": p, "kind": "over-leftover-catalog"},
+                                       created_script(p, "over")[:2] + ["lean %s: %s" % (line[:80], ans[:600])]))
         elif kind in ("memdisk", "memdisk_eq", "reloaded"):
             good = ans == "ok true"
             if kind == "memdisk":
